@@ -184,7 +184,7 @@ pub fn run(run: &mut Run) {
                         if layout == 0 && !full_parens && !crlf && !brk {
                             continue;
                         }
-                        let opts = PrintOpts { full_parens, explicit_ret: false, loop_true: false, layout: layout * 7 + bi as u32 % 5 * (layout.min(1)), crlf, break_brackets: brk, break_infix: false, paren_values: false };
+                        let opts = PrintOpts { full_parens, explicit_ret: false, loop_true: false, layout: layout * 7 + bi as u32 % 5 * (layout.min(1)), crlf, break_brackets: brk, break_infix: false, paren_values: false, ..PrintOpts::default() };
                         let text = print_with(&base, opts).text;
                         judge(acc, "layout", format!("layout={} parens={} crlf={} break_brackets={}", layout, full_parens, crlf, brk), text, false);
                     }
@@ -205,6 +205,24 @@ pub fn run(run: &mut Run) {
             let opts = PrintOpts { break_infix: true, break_brackets: true, layout: 2, ..PrintOpts::default() };
             let text = print_with(&base, opts).text;
             judge(acc, "layout", "break_infix break_brackets noise".to_string(), text, false);
+        }
+        // return sugar per site: every choice between a trailing expression and `ret e` at the first 4 tail sites (the
+        // last expression statement of each function body)
+        {
+            let probe = PrintOpts { ret_mask: Some(0), ..PrintOpts::default() };
+            let counter = probe.ret_sites.clone();
+            let _ = print_with(&base, probe);
+            let nret = (counter.load(std::sync::atomic::Ordering::Relaxed) as usize).min(4);
+            for mask in 1..(1u64 << nret) {
+                let opts = PrintOpts { ret_mask: Some(mask), ..PrintOpts::default() };
+                let text = print_with(&base, opts).text;
+                judge(acc, "sugar", format!("ret_mask={:b} of {} tail sites", mask, nret), text, true);
+            }
+            if nret > 0 {
+                let opts = PrintOpts { ret_mask: Some(u64::MAX), loop_true: true, ..PrintOpts::default() };
+                let text = print_with(&base, opts).text;
+                judge(acc, "sugar", "ret at every tail site, loop true".to_string(), text, true);
+            }
         }
         // sugar group: every style vector over the first k call sites x ret form x loop form
         let nsites = restyle(&mut base.clone(), &[]).min(ksites);
@@ -253,7 +271,7 @@ pub fn run(run: &mut Run) {
         }
     });
     run.stats = Stats::merge_all(accs);
-    run.rule = "base programs: the statement families (short sequences), the recursion templates, expressions of size <= 1 in five call-heavy contexts and a feature-dense sample; per base every combination of 4 layout noise patterns (blank lines, comment lines, trailing comments, tab indentation) x redundant parentheses x CRLF x line breaks inside brackets (after `(`, `[`, `,`; and continuation lines that start with a binary operator or `->`) x redundant parentheses around whole values, and every call-style vector over the first k call sites (f(a), f' a, a -> f(), a -> f') x trailing expression vs ret x loop do vs loop true do; non-trivial = the base compiles; distinct by base text".into();
+    run.rule = "base programs: the statement families (short sequences), the recursion templates, expressions of size <= 1 in five call-heavy contexts and a feature-dense sample; per base every combination of 4 layout noise patterns (blank lines, comment lines, trailing comments, tab indentation) x redundant parentheses x CRLF x line breaks inside brackets (after `(`, `[`, `,`; and continuation lines that start with a binary operator or `->`) x redundant parentheses around whole values, and every call-style vector over the first k call sites (f(a), f' a, a -> f(), a -> f') x trailing expression vs ret x loop do vs loop true do, plus every per-site choice of trailing expression vs `ret e` over the first 4 function bodies that end in an expression; non-trivial = the base compiles; distinct by base text".into();
     run.bounds = json!({"bases": bases.len(), "call_sites_varied": ksites});
     run.assumptions = vec![
         "layout variants are compared byte for byte after masking the line number in `Reached unreachable code on line N`".into(),
